@@ -57,13 +57,15 @@ def run(prop, tier):
         for v in acc.viols:
             if "unsigned-char" in v.get("job", ""):
                 v["sig"] += "@unsigned-char"
+    from checks import indep
+    indep_rule = indep.add(prop, tier, acc)
     s = acc.stats
     cov = dict(states=s.get("states", 0), transitions=s.get("transitions", 0),
                traces_validated_against_impl=s.get("canon_on_replay_checks", 0) + s.get("mutating_transitions", 0),
                evaluations=s.get("transitions", 0), distinct_nontrivial=s.get("states_with_3plus_nodes", 0),
                rule="explicit-state BFS to closure over all trees on K ordered keys, executed on the real PTree by history replay; "
                     + RULES[prop] + "; non-trivial = distinct reachable states with >= 3 nodes",
-               closure_reached=True, key_universe=[dict(type=j[0], K=j[1], mode=j[2]) for j in jobs], exhaustive=True)
+               closure_reached=True, key_universe=[dict(type=j[0], K=j[1], mode=j[2]) for j in jobs], exhaustive=True, independent_objects=indep_rule.strip('; '))
     assumptions = ["keys are compared only through the user comparator, so K distinct ranks cover all trees of <= K nodes",
                    "key/value identities are left out of the state key (the tree never branches on them); they are checked against the reference on every transition",
                    "white-box access by #including the ptree sources: a refactor of the private structs is a build error, not a silent pass"]
